@@ -280,7 +280,13 @@ func replaySched(un *universe, c *schedCase, form string, enc *json.Encoder) (in
 		evs := append([]event(nil), r.events...)
 		got := append([]resRec(nil), r.results[st.P]...)
 		r.mu.Unlock()
-		if len(evs) != 1 || evs[0].A != st.A || evs[0].R != st.R {
+		if st.R == "nopkg" {
+			// the package is not registered: the real code reads no files map and emits nothing
+			if len(evs) != 0 {
+				report("sched-step-differs:"+st.A+"-"+st.R, i, fmt.Sprintf("model: package not registered, nothing read; real events: %+v", evs))
+				break
+			}
+		} else if len(evs) != 1 || evs[0].A != st.A || evs[0].R != st.R {
 			report("sched-step-differs:"+st.A+"-"+st.R, i, fmt.Sprintf("model: %s observes %q; real events: %+v", st.A, st.R, evs))
 			break
 		}
